@@ -1,4 +1,5 @@
 import SelfiesVerif.Model.Decoder
+import SelfiesVerif.Model.Encoder
 
 namespace SV.Driver
 open SV
@@ -63,6 +64,32 @@ def encMol (m : Mol) : String :=
   let adj := ";".intercalate (m.adj.map fun out => ",".intercalate (out.map encBond))
   s!"atoms={atoms}\troots={m.roots}\tadj={adj}\tcounts={m.counts}"
 
+def encPBond (ob : Option PBond) : String :=
+  match ob with
+  | none => "P"
+  | some b => s!"{b.src}>{b.dst}:{b.order2}:{encOptChar b.stereo}:{if b.ring then 1 else 0}"
+
+def encPMol (m : PMol) : String :=
+  let atoms := ";".intercalate (m.atoms.map encAtom)
+  let adj := ";".intercalate (m.adj.map fun out => ",".intercalate (out.map encPBond))
+  let ds := ";".intercalate (m.ds.map fun (k, v) => s!"{k}:{v}")
+  s!"atoms={atoms}\troots={m.roots}\tadj={adj}\tcounts2={m.counts2}\tflags={m.ringFlags}\tds={ds}"
+
+def decNatList (s : String) : List Nat :=
+  if s.isEmpty || s == "-" then [] else (s.splitOn ",").map String.toNat!
+
+def decGraph (s : String) : Graph :=
+  if s == "-" then [] else (s.splitOn ";").map decNatList
+
+def encMatching (m : Option Matching) : String :=
+  match m with
+  | none => "N"
+  | some l => ",".intercalate (l.map encOptNat)
+
+def encTok (t : SmilesTok) : String :=
+  let k := match t.kind with | .atom => "A" | .branch => "B" | .ring => "R" | .dot => "D"
+  s!"{k}{encOptChar t.bondChar}{encStr t.text}"
+
 structure St where
   table : Table := (Table.ofDict Gen.initialConstraints).getD { entries := [], dflt := 0 }
 
@@ -80,6 +107,22 @@ def handle (st : St) (fields : List String) : St × String :=
       if attrib then encStr p.1 ++ "\t" ++ encMaps p.2 else encStr p.1) r)
   | ["decg", flags, s] =>
     (st, encPy encMol (decodeGraph st.table (decStr s) (flags.contains 'c') false))
+  | ["enc", flags, tape, s] =>
+    let strict := flags.contains 's'
+    let attrib := flags.contains 'a'
+    let r := encoderFull st.table (decStr s) strict attrib (decNatList tape)
+    (st, encPy (fun (p : Str × List AttributionMap) =>
+      if attrib then encStr p.1 ++ "\t" ++ encMaps p.2 else encStr p.1) r)
+  | ["parse", s] => (st, encPy encPMol (smilesToMol (decStr s) false))
+  | ["kek", tape, s] =>
+    (st, encPy (fun (o : Option PMol) => match o with | none => "N" | some m => encPMol m)
+      (do let m ← smilesToMol (decStr s) false; m.kekulize (decNatList tape)))
+  | ["tok", s] =>
+    (st, match tokenizeSmiles ((decStr s).length + 1) (decStr s) with
+      | none => "err\tSMILESParserError"
+      | some l => "ok\t" ++ " ".intercalate (l.map encTok))
+  | ["pm", g, tape] => (st, encPy encMatching (findPerfectMatching (decGraph g) (decNatList tape)))
+  | ["greedy", g] => (st, encPy (fun m => encMatching (some m)) (greedyMatching (decGraph g)))
   | ["split", s] =>
     let (items, bad) := splitSelfies (decStr s)
     (st, (if bad then "err\tValueError\t" else "ok\t") ++ " ".intercalate (items.map encStr))
